@@ -21,7 +21,7 @@ EXPLANATION = (
     'the ValueSpecBase.apply pipeline (frozen, missing, None tests dominate; '
     '_validate on every path after _apply) and boundary operators of the '
     'range/size validators; (e) unknown keys are rejected before any store.')
-FLOORS = {'C03.a': 11, 'C03.b': 5, 'C03.c': 1, 'C03.d': 4, 'C03.e': 1, 'C03.f': 10, 'C03.g': 1}
+FLOORS = {'C03.a': 11, 'C03.b': 5, 'C03.c': 1, 'C03.d': 4, 'C03.e': 1, 'C03.f': 10, 'C03.g': 1, 'C03.h': 2}
 FILES = c08.FILES + ['pyglove/core/typing/value_specs.py',
                      'pyglove/core/typing/class_schema.py']
 
@@ -252,6 +252,20 @@ def rule_b(ctx):
     else:
       ctx.info('C03.b', f'{prim.fq}#{word}', 'the primitive has no internal ' + word +
                ' guard: every caller is checked instead', prim.loc)
+  # the count compared with min_size is the number of real items: placeholders
+  # of removals requested earlier in the same batch do not count
+  gp = C.cfg_of(prim.node)
+  for k in gp.nodes:
+    if k.kind == 'test' and any(isinstance(x, ast.Attribute) and x.attr == 'min_size' for x in ast.walk(k.ast)) \
+        and gp.always_raises_from(k, 'true') and isinstance(k.ast, ast.Compare):
+      other = [e for e in [k.ast.left] + list(k.ast.comparators)
+               if not any(isinstance(x, ast.Attribute) and x.attr == 'min_size' for x in ast.walk(e))]
+      raw_len = [e for e in other if A.unparse(e) == 'len(self)']
+      ctx.ob('C03.b', f'{prim.fq}#min_size-count', not raw_len,
+             'the removal guard counts the items that are not removal placeholders (several removals of one batch '
+             'each see the previous ones)', f'{prim.module.relpath}:{k.lineno}',
+             'the guard compares len(self), which still contains the placeholders of earlier removals: a batch '
+             'of removals takes the list below min_size')
   oc = idx.lookup_method(S.LIST, '_on_change')
   if oc is not None and _primitive_guards(idx, 'min_size'):
     ok = c08.sweeps_only_placeholders(idx, oc)
@@ -318,6 +332,64 @@ def rule_g(ctx):
   ctx.ob('C03.g', f.fq, not problems,
          'every value a Union accepts is the result of one of its candidates\' apply() (constraints of the '
          'candidate are enforced on every path, including type conversion)', f.loc, '; '.join(problems))
+
+
+def rule_h(ctx):
+  """(1) The missing-value report of a typed Dict looks at every stored key of
+  every matched key spec - constant or dynamic - so a partial child under a
+  dynamic key makes its owners partial.  (2) Schema.get_field resolves a key
+  the way Schema.resolve does: a constant key first, then the FIRST non-const
+  key spec in declaration order that matches (no shortcut through a cached
+  field), so single writes are validated by the same field as construction."""
+  idx = ctx.index
+  f = idx.lookup_method(S.DICT, '_sym_missing')
+  g = C.cfg_of(f.node)
+  problems = []
+  inner = [k for k in g.nodes if k.kind == 'iter' and A.unparse(k.ast.iter) == 'keys']
+  if not inner:
+    problems.append('the loop over the matched keys vanished')
+  else:
+    # only the emptiness of `keys` may guard that loop
+    outer = [k for k in g.nodes if k.kind == 'iter' and any(x is inner[0].ast for x in ast.walk(k.ast)) and k is not inner[0]]
+    if outer:
+      # assuming the spec matched at least one key, every pass through the outer
+      # loop body reaches the loop over those keys
+      allowed = [t for t in g.nodes if t.kind == 'test' and A.unparse(t.ast) in ('keys', 'len(keys) > 0', 'len(keys) != 0')]
+      blocked = {(t.id, m.id, l) for t in allowed for m, l in t.succ if l == 'false'}
+      for m, lab in outer[0].succ:
+        if lab in ('body', 'true', 'next'):
+          seen, parent = g.reach(m, blocked_nodes={inner[0].id}, blocked_edges=blocked, follow_exc=False)
+          seen.add(m.id)
+          heads = [h for h in g.nodes if h.kind in ('loophead', 'iter') and h.ast is outer[0].ast]
+          if m is not inner[0] and (any(h.id in seen for h in heads) or g.exit.id in seen):
+            problems.append('some matched keys are skipped by an extra condition: a partial value stored under such a key '
+                            'is not reported and its owners pass for complete')
+  ctx.ob('C03.h', f.fq, not problems,
+         'missing values are collected from every stored key of every matched key spec (constant or dynamic)',
+         f.loc, '; '.join(problems))
+  f = idx.func('pyglove.core.typing.class_schema.Schema.get_field')
+  g = C.cfg_of(f.node)
+  problems = []
+  loops = [k for k in g.nodes if k.kind == 'iter' and 'self._fields.items()' in A.unparse(k.ast.iter)]
+  loopvars = set()
+  for lp in loops:
+    loopvars |= set(A.assigned_names(lp.ast.target))
+  for k in g.nodes:
+    if k.kind != 'return' or k.ast.value is None:
+      continue
+    v = k.ast.value
+    t = A.unparse(v)
+    if t == 'None' or t.startswith('self._fields['):
+      continue
+    if isinstance(v, ast.Name) and v.id in loopvars and any(any(x is k.ast for x in ast.walk(lp.ast)) for lp in loops):
+      continue
+    problems.append(f'line {k.lineno}: returns `{t}`, not the first matching field in declaration order - single writes '
+                    f'are validated by a different field than construction (Schema.resolve)')
+  if not loops:
+    problems.append('get_field no longer scans the fields in declaration order')
+  ctx.ob('C03.h', f.fq, not problems,
+         'a key is resolved to its constant field, else to the first matching non-const field in declaration order',
+         f.loc, '; '.join(problems))
 
 
 def rule_c(ctx):
@@ -597,4 +669,5 @@ def run(ctx):
   rule_d(ctx)
   rule_e(ctx)
   rule_g(ctx)
+  rule_h(ctx)
   ctx.assume('acceptance semantics of each spec (what apply accepts) is not decided')
